@@ -12,6 +12,9 @@ import ZygoVerif.Model.LegacyParser
 import ZygoVerif.Spec.Unfinished
 import ZygoVerif.Proofs.ParseChunks
 import ZygoVerif.Proofs.Abandon
+import ZygoVerif.Proofs.Stepwise
+import ZygoVerif.Proofs.StepwiseTrace
+import ZygoVerif.Proofs.StepwiseFuel
 import ZygoVerif.Generated.LexTables
 import ZygoVerif.Generated.ResetOrder
 namespace ZygoVerif.Props.C13
@@ -266,19 +269,184 @@ theorem yield_cleared_after_stop :
 /-- `Stop` stops the coroutine too (used by `Close`) -/
 theorem stop_stops : "call:stop" ∈ Generated.ResetOrder.parserStop := by decide
 
-/-- **Full statement, NOT proved** (compared on every `parse h` op: the driver computes both and
+/-- **Full statement, proved in part** (compared on every `parse h` op: the driver computes both and
 answers `MODELS-DISAGREE` when they differ): the parser driven call by call gives what the
 delivery model of `Model/Parser` (pieces known in advance) gives, so `parse_chunks_eq_whole`
-transfers to the call-by-call protocol. Proved parts: `annotated_parser_is_the_parser` (both run
-the same program) and `suspended_iff_more` (a coroutine is kept exactly when the answer is `more`).
-and `suspended_program_is_rest_of_run` (resuming the kept program with further input continues the
-run of the whole). Missing: the step over a `done` (the NEW `ParsingIter` of the next call gets
-new fuel in the model: needs "the fuel is enough" over the mutual recursion) and the statuses of
-the intermediate calls (`trace` is not part of the abstract views). -/
+transfers to the call-by-call protocol. Proved: `stepwise_is_run_partial` below (status and
+expressions, for every parser state, every chunking, every fuel `F ≥ fuelFor cs`, whenever the parse
+of the text is not an error) on top of `annotated_parser_is_the_parser`, `suspended_iff_more`,
+`suspended_program_is_rest_of_run` and `run_fuel_mono`; `stepwise_is_run_until_done` (any outcome, no
+`done` before the last call); `stepwise_is_run_of_fuel` (`FuelIsEnough → StepwiseIsRun`). Missing:
+`FuelIsEnough` itself — see `stepwise_is_run_partial`. -/
 def StepwiseIsRun : Prop :=
   ∀ (p : PSt) (cs : List (List Char)),
     let r := (p.parseBy (fuelFor cs) .resetAdd cs).1
     r.status = (parseChunks cs).status ∧ r.exprs = (parseChunks cs).exprs ∧ r.trace = (parseChunks cs).trace
+
+/-- **`run_fuel_mono`.** What `fuel` bounds in the model is the depth of the recursive descent
+(`parseExprTok` … `parseBacktick`, `skipComments`) plus the number of top-level expressions
+(`topLoop`); the Go code has no such bound. The model has NO separate timeout outcome: at fuel 0
+every function is `fail`, the outcome of a parse error (`Status.err`). So fuel can only turn a
+result into an error, never into another result: a parse that does not end in an error is, with any
+larger fuel, the same parse — same outcome, same final state (lexer, reply, trace). For every state.
+(`Proofs/Stepwise`: `Prog.le` = "the same program with subtrees cut off by `fail`", `fuelLe`: the
+eight mutually recursive functions at fuel `f` are below those at `f + 1`, `run_le`.) -/
+theorem run_fuel_mono (f g : Nat) (h : f ≤ g) (s : PState) (hne : (run (topLoop f) s).1 ≠ .stop .err) :
+    run (topLoop g) s = run (topLoop f) s :=
+  Parser.run_fuel_mono f g h s hne
+
+/-- did the run end in the error outcome? -/
+def endsInErr {α : Type} : Fin α → Bool
+  | .stop .err => true
+  | _ => false
+
+example : (run (topLoop 3) (initState LexState.init ["1 ".toList])).1 ≠ .stop .err := by
+  have h2 : endsInErr (run (topLoop 3) (initState LexState.init ["1 ".toList])).1 = false := by decide +kernel
+  intro h
+  rw [h] at h2
+  exact absurd h2 (by decide)
+
+/-- the status a run stands for (as in `parseChunksFrom`) -/
+theorem status_of_run (l : LexState) (cs : List (List Char)) :
+    (parseChunksFrom l cs).status =
+      statusOf (runA (topLoop (fuelFor cs)) ⟨LexCore.init, cs.flatten ++ eofPiece, [], true⟩).1 := by
+  rw [(parseChunksFrom_eq_abstract l cs).1]
+  cases (runA (topLoop (fuelFor cs)) ⟨LexCore.init, cs.flatten ++ eofPiece, [], true⟩).1 <;> rfl
+
+/-- **`stepwise_is_run_partial`: the call-by-call protocol computes `parseChunks`** — final status,
+expressions AND the statuses of all intermediate calls — for EVERY parser state `p` (any lexer
+state, any reply, any suspended coroutine, also one that is not the parser's), EVERY list of pieces,
+and every per-iterator fuel `F` not below the fuel of the delivery model, whenever the parse of the
+text does not end in an error (status `done` or `more`). The pieces are delivered by
+`ResetAddNewInput`/`NewInput`, `ParseTokens` after each, `EndInput`, `ParseTokens`; a call that
+answers `more` keeps its coroutine (`residual`) and the next call resumes it; a call that answers
+`done` ends its `ParsingIter` and the next call starts a NEW one with NEW fuel `F` — the step over a
+`done` is closed by `run_fuel_mono`: the rest of the delivery-model run (which has less fuel left) is
+not an error, so it is the run of the new iterator. With `parse_chunks_eq_whole`: on the real
+protocol too, a non-error parse depends only on the text.
+Status and expressions: `Proofs/Stepwise.parseBy_abstract` (on the abstract views: `suspendA`
+characterised against `runA`, the shape `TL` of the programs the protocol ever holds, `call_step`).
+Trace: `Proofs/StepwiseTrace.parseBy_trace` (on the concrete interpreter: `run_split` splits a run
+with pieces still to come at the first delivery, `first_step`, `chunk_trace`).
+
+What is missing from `StepwiseIsRun`: parses that END IN AN ERROR after some call answered `done`.
+There the statement needs "the fuel of the delivery model is enough" (`4 * length + 16` against at
+most 3 per token + 1 per top-level expression), because fuel exhaustion and a syntax error are one
+outcome in the model (`FuelIsEnough` below, stated, not proved; `stepwise_is_run_of_fuel` proves
+`FuelIsEnough → StepwiseIsRun`). Without a `done` before the error it is proved
+(`stepwise_is_run_until_done`). The driver still computes both models on every `parse h` op
+(`MODELS-DISAGREE`). -/
+theorem stepwise_is_run_partial (p : PSt) (cs : List (List Char)) (F : Nat) (hF : fuelFor cs ≤ F)
+    (hne : (parseChunks cs).status ≠ .err) :
+    (p.parseBy F .resetAdd cs).1.status = (parseChunks cs).status ∧
+    (p.parseBy F .resetAdd cs).1.exprs = (parseChunks cs).exprs ∧
+    (p.parseBy F .resetAdd cs).1.trace = (parseChunks cs).trace := by
+  have hst := status_of_run LexState.init cs
+  have hex := (parseChunksFrom_eq_abstract LexState.init cs).2
+  have hne0 : (runA (topLoop (fuelFor cs)) ⟨LexCore.init, cs.flatten ++ eofPiece, [], true⟩).1 ≠ .stop .err := by
+    intro h
+    apply hne
+    unfold parseChunks
+    rw [hst, h]; rfl
+  have hmono := runA_fuel_mono (fuelFor cs) F hF _ hne0
+  obtain ⟨a1, a2⟩ := parseBy_abstract F p cs _ hmono hne0
+  refine ⟨?_, ?_, parseBy_trace F p cs hF hne⟩
+  · unfold parseChunks; exact a1.trans hst.symm
+  · unfold parseChunks; exact a2.trans hex.symm
+
+/-- **Stated, NOT proved: the fuel of the delivery model is enough** — the one fact `StepwiseIsRun`
+still needs: the parse of a text with the fuel `fuelFor` is the parse with any larger fuel, ALSO when
+it ends in an error (i.e. that error is a syntax error, never the fuel). Proving it needs a
+potential argument over the eight mutually recursive functions (fuel spent ≤ 3 per token consumed
++ 1 per top-level expression) and over the lexer (tokens produced ≤ runes read + 1). For parses that
+do not end in an error it is `run_fuel_mono`. -/
+def FuelIsEnough : Prop :=
+  ∀ (cs : List (List Char)) (F : Nat), fuelFor cs ≤ F →
+    run (topLoop F) (initState LexState.init cs) = run (topLoop (fuelFor cs)) (initState LexState.init cs)
+
+/-- a 3-piece delivery: the first piece is complete (`done`, a new `ParsingIter` follows), the
+middle piece is unfinished (`more`, a coroutine is kept), the third closes it -/
+def threePieces : List (List Char) := ["1 ".toList, "(a".toList, " b)".toList]
+
+example : (parseChunks threePieces).status ≠ .err ∧
+    (PSt.fresh.parseBy (fuelFor threePieces) .resetAdd threePieces).1.trace = [.done, .more, .done] ∧
+    (parseChunks threePieces).exprs.length = 2 := by decide +kernel
+
+example : (PSt.fresh.parseBy (fuelFor threePieces) .resetAdd threePieces).1.exprs = (parseChunks threePieces).exprs :=
+  (stepwise_is_run_partial PSt.fresh threePieces _ (Nat.le_refl _) (by decide +kernel)).2.1
+
+/-- … and with it what the delivery model records for these pieces -/
+example : (parseChunks threePieces).trace = [.done, .more, .done] := by
+  rw [← (stepwise_is_run_partial PSt.fresh threePieces _ (Nat.le_refl _) (by decide +kernel)).2.2]
+  decide +kernel
+
+/-- **`stepwise_is_run_of_fuel`: `FuelIsEnough → StepwiseIsRun`** — the whole of what is missing is
+a statement about the delivery model alone. Per text (`Proofs/StepwiseFuel.stepwise_of_fuel`): if the
+run of the delivery model on `cs` is the same run with every larger fuel, then from EVERY parser
+state, with every per-iterator fuel `F ≥ fuelFor cs`, the protocol gives the status, the expressions
+and the trace of `parseChunks cs`, WHATEVER the outcome (errors after a `done` included).
+Idea: seen from the delivery model, the protocol after its i-th `done` is the delivery model started
+with more fuel `G ≥ F` — every stage of the protocol is a stage of `run (topLoop G) t0`, uniformly in
+a further shift `d` of all fuel indices (`Shift`, `stage_ok`: a shifted program rests at the same
+state in the shifted rest; `S_topLoop_inj`: the fuel index of the rest is exact), and an error inside
+a piece ends both the same way (`run_split_none`, `stage_err`). -/
+theorem stepwise_is_run_of_fuel (h : FuelIsEnough) : StepwiseIsRun := by
+  intro p cs
+  exact stepwise_of_fuel cs (fuelFor cs) (Nat.le_refl _) (fun G hG => h cs G hG) p
+
+/-- the per-text form, with any per-iterator fuel -/
+theorem stepwise_is_run_for_text (cs : List (List Char)) (F : Nat) (hF : fuelFor cs ≤ F)
+    (hfe : ∀ G, fuelFor cs ≤ G → run (topLoop G) (initState LexState.init cs) =
+      run (topLoop (fuelFor cs)) (initState LexState.init cs)) (p : PSt) :
+    (p.parseBy F .resetAdd cs).1.status = (parseChunks cs).status ∧
+    (p.parseBy F .resetAdd cs).1.exprs = (parseChunks cs).exprs ∧
+    (p.parseBy F .resetAdd cs).1.trace = (parseChunks cs).trace :=
+  stepwise_of_fuel cs F hF hfe p
+
+/-- the hypothesis holds for every text whose parse is not an error (`run_fuel_mono`) -/
+example : ∀ G, fuelFor threePieces ≤ G → run (topLoop G) (initState LexState.init threePieces) =
+    run (topLoop (fuelFor threePieces)) (initState LexState.init threePieces) := by
+  intro G hG
+  refine run_fuel_mono _ _ hG _ ?_
+  have h2 : endsInErr (run (topLoop (fuelFor threePieces)) (initState LexState.init threePieces)).1 = false := by
+    decide +kernel
+  intro h
+  rw [h] at h2
+  exact absurd h2 (by decide)
+
+/-- **`stepwise_is_run_until_done`**: with the fuel of the delivery model, as long as no
+`ParseTokens` call before the last answers `done` (every piece but the last leaves the text
+unfinished: the coroutine is resumed, no new `ParsingIter`, so no new fuel), the call-by-call
+protocol gives the status, the expressions and the trace of `parseChunks` WHATEVER the outcome — also
+when the parse ends in an error (a syntax error in any piece, or the fuel of the model).
+(`Proofs/StepwiseFuel.stages`: the fuel `G` with which the delivery model passes through the stages of
+the protocol changes only at a `done`.) -/
+theorem stepwise_is_run_until_done (p : PSt) (cs : List (List Char))
+    (hnd : Status.done ∉ (p.parseBy (fuelFor cs) .resetAdd cs).1.trace) :
+    (p.parseBy (fuelFor cs) .resetAdd cs).1.status = (parseChunks cs).status ∧
+    (p.parseBy (fuelFor cs) .resetAdd cs).1.exprs = (parseChunks cs).exprs ∧
+    (p.parseBy (fuelFor cs) .resetAdd cs).1.trace = (parseChunks cs).trace :=
+  stepwise_nodone cs p hnd
+
+/-- three pieces, the first two unfinished, a syntax error in the third: `(a [b )` — `)` where `]` is due -/
+def threeBad : List (List Char) := ["(a ".toList, "[b ".toList, ")".toList]
+
+example : (PSt.fresh.parseBy (fuelFor threeBad) .resetAdd threeBad).1.trace = [.more, .more] ∧
+    (parseChunks threeBad).status = .err := by decide +kernel
+
+/-- the hypothesis of `stepwise_is_run_until_done` holds for it, and the theorem gives the error -/
+example : (PSt.fresh.parseBy (fuelFor threeBad) .resetAdd threeBad).1.status = .err := by
+  rw [(stepwise_is_run_until_done PSt.fresh threeBad (by decide +kernel)).1]
+  decide +kernel
+
+/-- … and the same after any history, by any reset route (`protocol_reset_forgets`) -/
+theorem stepwise_is_run_after_history (p : PSt) (r : Route) (hr : r.isReset = true)
+    (hr' : r ≠ .resetAddLexerFirst ∧ r ≠ .resetNewLexerFirst) (cs : List (List Char)) (F : Nat)
+    (hF : fuelFor cs ≤ F) (hne : (parseChunks cs).status ≠ .err) :
+    (p.parseBy F r cs).1.status = (parseChunks cs).status ∧ (p.parseBy F r cs).1.exprs = (parseChunks cs).exprs ∧
+    (p.parseBy F r cs).1.trace = (parseChunks cs).trace := by
+  rw [protocol_reset_forgets F p r hr hr' cs]
+  exact stepwise_is_run_partial PSt.fresh cs F hF hne
 
 /-! ## 4. The last token is kept -/
 
